@@ -14,7 +14,8 @@ package kvql
 // float_list return were refused row by row and shown in batch mode).
 //@ define shown(x Any) Bool = isnil(x) || isbool(x) || isText(x) || isInt(x) || isFlt(x) || is(x, []string) || is(x, []int64) || is(x, []float64) || is(x, []any)
 //@ func (p *ProjectionPlan) processProjection(kvp KVPair, ctx *ExecuteCtx) (ret []Column, err error)
-//@   props C05 C03
+//@   props C05 C03 C13
+//@   ensures norows: err != nil ==> isnil(ret)
 //@   ghost k Int
 //@   requires wfProj(p) && coherent(ctx, val(kvp.Key), val(kvp.Value)) && wfCtx(ctx) && wfRefs()
 //@   assigns ctx.Hit, mapof(ctx.FieldCaches)
@@ -34,6 +35,7 @@ package kvql
 // k on the pair the child plan produced.
 //@ func (p *ProjectionPlan) Next(ctx *ExecuteCtx) (cols []Column, err error)
 //@   props C05 C13
+//@   ensures[C13] norows: err != nil ==> isnil(cols)
 //@   ghost k Int
 //@   requires wfProj(p) && ctx != nil && wfCtx(ctx) && wfRefs() && !failed && wfCursor(p.ChildPlan)
 //@   assigns pcur(p.ChildPlan), nops, failed, lastErr, ctx.Hit, mapof(ctx.FieldCaches), mapof(ctx.FieldChunkKeyCaches), mapof(ctx.FieldChunkCaches)
@@ -66,6 +68,7 @@ package kvql
 //
 //@ func (p *ProjectionPlan) processProjectionBatch(chunk []KVPair, ctx *ExecuteCtx) (ret [][]Column, err error)
 //@   props C05 C03 C13
+//@   ensures norows: err != nil ==> len(ret) == 0
 //@   ghost r Int, k Int
 //@   requires wfProj(p) && len(chunk) > 0
 //@   requires finalcols: ctx != nil && ctx.EnableCache ==> (forall q B :: has(ctx.FieldChunkCaches, q) ==> len(ctx.FieldChunkCaches[q]) >= len(chunk))
@@ -89,6 +92,7 @@ package kvql
 //
 //@ func (p *ProjectionPlan) Batch(ctx *ExecuteCtx) (ret [][]Column, err error)
 //@   props C05 C03 C13
+//@   ensures[C13] norows: err != nil ==> len(ret) == 0
 //@   ghost r Int
 //@   requires wfProj(p) && ctx != nil && !failed && wfCursor(p.ChildPlan)
 //@   requires[C05] c5: wfCtxB(ctx) && wfRefs()
